@@ -525,3 +525,77 @@ Proof. exact source_gsubdivide. Qed.
 Theorem C12_source_cut_contract : forall span n : Z, 0 <= span -> 0 < n ->
   cut_contract span n (cut_of_source span n).
 Proof. exact source_cut_contract. Qed.
+
+(* ==== CONTROL-FLOW TIES (function-body translator, tools/fnspecs/bins_flow.py) [loop ties e3] ====
+   Which table operation is applied to which table, with which arguments, in which order and under which
+   option: the bodies of get_antitargets, do_antitarget, do_target, compare_chrom_names and
+   guess_chromosome_regions translated from the source text on every run (Gen/FnAntiFlow.v, FnAntiDo.v,
+   FnTargetFlow.v, FnChromNames.v, FnGuessRegions.v).  Tables are opaque ids and the table functions are
+   function inputs on ids; each theorem holds under EVERY reading of ids as tables in which the function
+   inputs are the model's operations. *)
+From CNV Require Proofs.FnAntiFlow Proofs.FnAntiDo Proofs.FnTargetFlow Proofs.FnChromNames Proofs.FnGuessRegions.
+From CNV Require Gen.FnAntiFlow Gen.FnAntiDo Gen.FnTargetFlow Gen.FnChromNames Gen.FnGuessRegions.
+
+(* get_antitargets: accessible regions from drop_noncanonical_contigs or (none given) guess_chromosome_regions
+   with 150000; shrunk by 2 * INSERT_SIZE; the targets grown by the same pad subtracted; subdivided with the
+   average and the minimum; every row named ANTITARGET_NAME -- the model's get_antitargets *)
+Theorem C12_source_get_antitargets : forall (tbl : Z -> list grow) (drop_fn guess_fn resize_fn subtract_fn : Z -> Z -> Z)
+    (subdivide_fn : Z -> Q -> Z -> Z) (cut : Z -> Z -> Z -> Z) (targets access : Z) (avg : Q) (mn : Z),
+  Proofs.FnAntiFlow.anti_reading tbl drop_fn guess_fn resize_fn subtract_fn subdivide_fn cut ->
+  (access <> 0 -> tbl access <> []) ->
+  effective_access (tbl targets) (Proofs.FnAntiFlow.access_of tbl access) <> None ->
+  get_antitargets (tbl targets) (Proofs.FnAntiFlow.access_of tbl access) avg mn cut =
+  Some (Proofs.FnAntiFlow.src_get_antitargets tbl drop_fn guess_fn resize_fn subtract_fn subdivide_fn targets access avg mn).
+Proof. exact Proofs.FnAntiFlow.source_get_antitargets. Qed.
+
+(* the generated body, spelled out with the literals it was read with *)
+Theorem C12_source_get_antitargets_body : forall (t a : Z) (avg : Q) (mn : Z) (nm : string) (isz : Z)
+    (drop_fn guess_fn resize_fn subtract_fn : Z -> Z -> Z) (subdivide_fn : Z -> Q -> Z -> Z),
+  Gen.FnAntiFlow.fn_get_antitargets t a avg mn isz nm drop_fn guess_fn resize_fn subtract_fn subdivide_fn =
+  (subdivide_fn (subtract_fn (resize_fn (if a =? 0 then guess_fn t 150000 else drop_fn a t) (- (2 * isz)))
+                             (resize_fn t (2 * isz))) avg mn, nm).
+Proof. exact Proofs.FnAntiFlow.source_flow_literals. Qed.
+
+(* do_antitarget: the default minimum exactly when none (0) is given, then get_antitargets(targets, access, avg, min) *)
+Theorem C12_source_do_antitarget : forall (exp2 : Q -> Q), (exp2 (-5 # 1) == 1 # 32)%Q ->
+  forall (tbl : Z -> list grow) (get_fn : Z -> Z -> Q -> Z -> Z) (cut : Z -> Z -> Z -> Z) (t a : Z) (avg : Q) (m : Z),
+  Proofs.FnAntiDo.get_is_model tbl get_fn cut ->
+  do_antitarget (tbl t) (Proofs.FnAntiFlow.access_of tbl a) avg (Some m) cut <> AntiValueError ->
+  do_antitarget (tbl t) (Proofs.FnAntiFlow.access_of tbl a) avg (Some m) cut
+  = AntiRows (tbl (Gen.FnAntiDo.fn_do_antitarget exp2 t a avg m Gen.BinsDefaults.MIN_REF_COVERAGE get_fn)).
+Proof. exact Proofs.FnAntiDo.source_do_antitarget. Qed.
+
+(* do_target: split first (minimum size 0), then the annotation (name check; nothing written into an empty table;
+   into_ranges on "gene" with default "-"), then the shortening of the labels the annotation left -- the model's
+   do_target_full; the third result says whether the compare_chrom_names statement raised *)
+Theorem C12_source_do_target : forall (tbl : Z -> list grow) (col : Z -> list string) (pick : list string -> string)
+    (cut : Z -> Z -> Z -> Z) (copy_fn read_fn len_fn list_fn shorten_fn : Z -> Z) (subdivide_fn : Z -> Q -> Z -> Z)
+    (names_raise : Z -> Z -> bool) (into_fn : Z -> Z -> string -> string -> Z)
+    (bait annot_id : Z) (short split : bool) (avg : Q) (nonzero genes : Z),
+  Proofs.FnTargetFlow.target_reading tbl col pick cut len_fn list_fn shorten_fn subdivide_fn names_raise into_fn ->
+  tbl nonzero = drop_zero_width (tbl bait) ->
+  let '(out, g, raised) :=
+    Proofs.FnTargetFlow.run_do_target copy_fn read_fn len_fn list_fn shorten_fn subdivide_fn names_raise into_fn
+      bait annot_id short split avg nonzero genes in
+  col genes = map gene (tbl out) ->
+  tbl out = do_target split avg cut (tbl bait) /\
+  match do_target_full pick split avg cut (Proofs.FnTargetFlow.annot_of tbl read_fn annot_id) short (tbl bait) with
+  | AnnotRows rows => raised = false /\ rows = set_genes (tbl out) (col g)
+  | AnnotValueError => raised = true \/ Proofs.FnTargetFlow.into_raises (Proofs.FnTargetFlow.annot_of tbl read_fn annot_id) (tbl out)
+  end.
+Proof. exact Proofs.FnTargetFlow.source_do_target. Qed.
+
+(* compare_chrom_names: ValueError exactly when the first table has a chromosome and shares none with the second *)
+Theorem C12_source_compare_chrom_names : forall a b : list grow,
+  compare_chrom_names a b =
+  let '(raises, ac, bc) := Gen.FnChromNames.fn_chrom_names (chroms_of a) (chroms_of b) Proofs.FnChromNames.disjoint_names in
+  if raises then None else Some (ac, bc).
+Proof. exact Proofs.FnChromNames.source_compare_chrom_names. Qed.
+
+(* guess_chromosome_regions: one row per target chromosome, from telomere_size to the end of its last row *)
+Theorem C12_source_guess_regions : forall (d : Z) (targets : list grow) (telomere : Z),
+  guess_regions targets telomere =
+  map (fun c => let '(s, e) := Gen.FnGuessRegions.fn_guess_row telomere (last_end (filter (on c) targets)) d in
+                (s, e, (c, EmptyString)))
+      (chroms_of targets).
+Proof. exact Proofs.FnGuessRegions.source_guess_regions. Qed.
